@@ -48,6 +48,14 @@ def split_goal(goal, depth=0, ext=False):
     if z3.is_implies(goal):
         a, b = goal.children()
         return [([a] + h, g) for h, g in split_goal(b, depth + 1, ext)]
+    if z3.is_or(goal):
+        # a disjunction with a universally quantified / conjunctive / conditional disjunct: the other disjuncts
+        # become (negated) hypotheses, so that the structured one can be opened
+        ch = goal.children()
+        for k, c in enumerate(ch):
+            if (z3.is_quantifier(c) and c.is_forall()) or z3.is_and(c) or z3.is_implies(c):
+                rest = [z3.Not(x) for j, x in enumerate(ch) if j != k]
+                return [(rest + h, g) for h, g in split_goal(c, depth + 1, ext)]
     if z3.is_quantifier(goal) and goal.is_forall():
         n = goal.num_vars()
         consts = [z3.FreshConst(goal.var_sort(i), "sk_" + goal.var_name(i).replace("!", "_")) for i in range(n)]
